@@ -42,12 +42,14 @@ structure SpecSt where
   seq : Nat := 0
   events : List (String × Nat × Ev) := []              -- node name, time, event
   open_ : List (Nat × String × Nat × Bool × Nat) := [] -- eid, res, batch, inbound, start ms
+  other : List String := []                            -- resources carrying rules outside the composite reject/iso/system Spec
   deriving Inhabited
 
 def ruleGeometry (ivl : Nat) : Nat × Nat × Bool :=
   match flowStatFor ivl with
   | .global rd => (500, rd.iv, false)
   | .priv g _ rd _ => (g.L, rd.iv, true)
+  | .nop => (1, 1, false)
 
 /-- tokens admitted for `res` in the bucket-aligned window of rule `r` ending at `t` -/
 def admittedIn (sp : SpecSt) (res : String) (r : SRule) (t : Nat) : Nat :=
@@ -85,18 +87,62 @@ def renderBuild : BuildRes → String
   | .pass => "pass"
   | .blocked ty rule snap => s!"blocked type={ty} rule={rule} snap={snap}"
 
+def evStr (l : List BEvent) : String :=
+  if l.isEmpty then "" else " ev=" ++ "|".intercalate (l.map BEvent.toStr)
+
 def renderNode (n : Node) (now : Nat) : String :=
   let rd := defaultReader
   s!"s={natsStr (kinds.map (fun k => n.sum rd now k))} conc={n.conc} m={n.ring.minRt globalGeo rd now} " ++
   s!"q={(n.ring.qpsWithTime globalGeo rd now .pass).toStr} a={(n.ring.avgRt globalGeo rd now).toStr}"
 
-def parseFlowRules (l : List String) : Except String (List (String × F64 × Nat)) :=
-  l.mapM (fun s => match s.splitOn ":" with
-    | [id, thr, ivl] => do
+def parseFlowRules (l : List String) : Except String (List World.FlowSpec) :=
+  l.mapM (fun s =>
+    let p := s.splitOn ":"
+    let g := fun (i : Nat) (d : String) => (p[i]?).getD d
+    if p.length < 3 then .error s!"bad-op: flow rule {s}" else do
+      let f ← parseFrac "thr" (g 1 "")
+      let i ← parseNat "ivl" (g 2 "")
+      let period ← parseNat "period" (g 5 "0")
+      let cold ← parseNat "cold" (g 6 "0")
+      let maxq ← parseNat "maxq" (g 7 "0")
+      pure { id := g 0 "", thr := F64.roundDiv f.num f.den, ivl := i, warmUp := g 3 "d" == "w",
+             throttling := g 4 "r" == "t", period := period, coldFactor := cold, maxQueueMs := maxq })
+
+def parseInt (what s : String) : Except String Int :=
+  if s.startsWith "-" then do let n ← parseNat what (s.drop 1).toString; pure (-(n : Int))
+  else do let n ← parseNat what s; pure (n : Int)
+
+def parseHsRules (l : List String) : Except String (List HsRule) :=
+  l.mapM (fun s =>
+    let p := s.splitOn ";"
+    let g := fun (i : Nat) (d : String) => (p[i]?).getD d
+    if p.length < 10 then .error s!"bad-op: hotspot rule {s}" else do
+      let idx ← parseInt "idx" (g 3 "0")
+      let thr ← parseNat "thr" (g 5 "0")
+      let maxq ← parseNat "maxq" (g 6 "0")
+      let burst ← parseNat "burst" (g 7 "0")
+      let dur ← parseNat "dur" (g 8 "0")
+      let cap ← parseNat "cap" (g 9 "0")
+      let spec ← (listOf (g 10 "") "|").mapM (fun kv => match splitFirst kv "=" with
+        | some (k, v) => do let n ← parseNat "specific" v; pure (k, n)
+        | none => .error s!"bad-op: specific item {kv}")
+      pure { id := g 0 "", metric := if g 1 "" == "c" then .concurrency else .qps,
+             strategy := if g 2 "" == "t" then .throttling else .reject, paramIndex := idx, paramKey := g 4 "",
+             thr := thr, maxQueueMs := maxq, burst := burst, durSec := dur, maxCap := cap, specific := spec })
+
+def parseBrRules (l : List String) : Except String (List BRule) :=
+  l.mapM (fun s =>
+    match s.splitOn ";" with
+    | [id, st, retry, minreq, ivl, buckets, maxrt, thr] => do
+      let retry ← parseNat "retry" retry
+      let minreq ← parseNat "minreq" minreq
+      let ivl ← parseNat "ivl" ivl
+      let buckets ← parseNat "buckets" buckets
+      let maxrt ← parseNat "maxrt" maxrt
       let f ← parseFrac "thr" thr
-      let i ← parseNat "ivl" ivl
-      pure (id, F64.roundDiv f.num f.den, i)
-    | _ => .error s!"bad-op: flow rule {s}")
+      pure { id := id, strategy := if st == "s" then .slowRatio else if st == "r" then .errorRatio else .errorCount,
+             retryMs := retry, minReq := minreq, ivl := ivl, buckets := buckets, maxRt := maxrt, thr := F64.roundDiv f.num f.den }
+    | _ => .error s!"bad-op: breaker rule {s}")
 
 def parseSysRules (l : List String) : Except String (List SysRule) :=
   l.mapM (fun s => match s.splitOn ":" with
@@ -190,15 +236,19 @@ def stepCase (st : St) (v : Verdict) (i : Nat) (opText obs : String) : St × Ver
     match op.str "res", parseFlowRules (op.list "rules") with
     | .ok res, .ok rules =>
       let ids := listOf (obsField obs "ctrls")
-      if !isPerm (rules.map (·.1)) ids then
+      if !isPerm (rules.map (·.id)) ids then
         (st, v.setDiff s!"step={i} op=[{opText}] controllers held by the implementation are not the loaded rules: [{obs}]")
       else
-        let rules' := reorder (·.1) rules ids
+        let rules' := reorder (·.id) rules ids
         let w' := w.loadFlow res rules'
-        let srules := rules'.map (fun r => let g := ruleGeometry r.2.2
+        let plain := rules'.all (fun r => !r.warmUp && !r.throttling)
+        let srules := (rules'.filter (fun r => !r.warmUp && !r.throttling)).map (fun r => let g := ruleGeometry r.ivl
           -- an unchanged private-window rule keeps its window (and its `since`)
-          let old := ((World.lookup sp.flow res).getD []).find? (fun o => o.thr == r.2.1 && o.L == g.1 && o.W == g.2.1)
-          ({ id := r.1, thr := r.2.1, L := g.1, W := g.2.1, priv := g.2.2, since := match old with | some o => o.since | none => sp.seq } : SRule))
+          let old := ((World.lookup sp.flow res).getD []).find? (fun o => o.thr == r.thr && o.L == g.1 && o.W == g.2.1)
+          ({ id := r.id, thr := r.thr, L := g.1, W := g.2.1, priv := g.2.2, since := match old with | some o => o.since | none => sp.seq } : SRule))
+        let sp := if plain then sp else { sp with other := res :: sp.other }
+        let v := if rules'.any (·.throttling) then v.addTag "flow-throttling" else v
+        let v := if rules'.any (·.warmUp) then v.addTag "flow-warmup" else v
         let v := if srules.any (·.priv) then v.addTag "private-window" else v
         let v := if srules.any (fun r => !r.priv && r.W != 1000) then v.addTag "reused-global-window" else v
         let v := if srules.length > 1 then v.addTag "several-rules" else v
@@ -232,26 +282,61 @@ def stepCase (st : St) (v : Verdict) (i : Nat) (opText obs : String) : St × Ver
     let l := getF "load" w.load
     let c := getF "cpu" w.cpu
     ({ w := { w with load := l, cpu := c }, sp := { sp with load := l, cpu := c } }, v.expect i opText "ok" obs)
+  | "hs.load" =>
+    match op.str "res", parseHsRules (op.list "rules") with
+    | .ok res, .ok rules =>
+      let ids := listOf (obsField obs "ctrls")
+      if !isPerm (rules.map (·.id)) ids then
+        (st, v.setDiff s!"step={i} op=[{opText}] controllers held by the implementation are not the loaded rules: [{obs}]")
+      else
+        let rules' := reorder (·.id) rules ids
+        ({ w := w.loadHs res rules', sp := { sp with other := res :: sp.other } }, v.addTag "hotspot-rules")
+    | _, _ => bad "bad-op"
+  | "br.load" =>
+    match op.str "res", parseBrRules (op.list "rules") with
+    | .ok res, .ok rules =>
+      let ids := listOf (obsField obs "breakers")
+      if !isPerm (rules.map (·.id)) ids then
+        (st, v.setDiff s!"step={i} op=[{opText}] breakers held by the implementation are not the loaded rules: [{obs}]")
+      else
+        let rules' := reorder (·.id) rules ids
+        ({ w := w.loadBr res rules', sp := { sp with other := res :: sp.other } }, v.addTag "breaker-rules")
+    | _, _ => bad "bad-op"
+  | "br.state" =>
+    match op.str "res" with
+    | .ok res =>
+      let m := ",".intercalate ((w.breakers res).map (fun b => s!"{b.rule.id}:{b.state.toStr}"))
+      (st, v.expect i opText s!"states={m}" obs)
+    | _ => bad "bad-op"
   | "build" =>
     match op.nat "e", op.str "res", op.natD "batch" 1 with
     | .ok eid, .ok res, .ok batch =>
       let inbound := op.get? "dir" == some "in"
+      let args : Option (List String) := (op.get? "args").map (fun a => listOf a)
+      let atts : Option (List (String × String)) := (op.get? "atts").map (fun a =>
+        (listOf a).filterMap (fun kv => splitFirst kv ":"))
       let t := w.nowMs
-      let (w', r) := w.build eid res batch inbound
-      let v := v.expect i opText (renderBuild r) obs
-      let v := match specBuild sp res t batch inbound obs with | some m => v.setViol s!"step={i} {m}" | none => v
+      let (w', r) := w.build eid res batch inbound args atts
+      let mobs := renderBuild r ++ s!" dt={w'.nowNs - w.nowNs}" ++ evStr (w'.log.drop w.log.length)
+      let v := v.expect i opText mobs obs
+      let obsFull := obs
+      let obs := if obsFull.startsWith "pass" then "pass" else obsFull
+      let v := if sp.other.contains res then v else
+        match specBuild sp res t batch inbound obs with | some m => v.setViol s!"step={i} {m}" | none => v
       let v := if obs == "pass" then v.addTag "pass" else if obsField obs "type" == "Flow" then v.addTag "flow-block"
         else if obsField obs "type" == "SystemFlow" then v.addTag s!"system-block" else v.addTag "other-block"
       let v := if obs == "pass" && inbound && !sp.sys.isEmpty then v.addTag "system-pass" else v
       let v := if !inbound && !sp.sys.isEmpty && (sp.sys.any (fun r => (r.trips (specSysObs sp t)).1)) then v.addTag "outbound-while-tripping" else v
       let v := if t % 500 == 0 then v.addTag "arrival-on-boundary" else v
       let nodeNames := if inbound then [res, "__inbound__"] else [res]
+      -- statistics are recorded after the checks, i.e. after any throttling sleep the implementation reports
+      let tStat := (w.nowNs + ((obsField obsFull "dt").toNat?.getD 0)) / 1000000
       let sp' := if obs == "pass" then
-          { sp with admitted := (res, t, batch, sp.seq) :: sp.admitted, seq := sp.seq + 1,
-                    events := nodeNames.map (fun nm => (nm, t, Ev.add .pass batch)) ++ sp.events,
+          { sp with admitted := (res, tStat, batch, sp.seq) :: sp.admitted, seq := sp.seq + 1,
+                    events := nodeNames.map (fun nm => (nm, tStat, Ev.add .pass batch)) ++ sp.events,
                     open_ := (eid, res, batch, inbound, t) :: sp.open_ }
         else if obs.startsWith "blocked" then
-          { sp with events := nodeNames.map (fun nm => (nm, t, Ev.add .block batch)) ++ sp.events }
+          { sp with events := nodeNames.map (fun nm => (nm, tStat, Ev.add .block batch)) ++ sp.events }
         else sp
       ({ w := w', sp := sp' }, v)
     | _, _, _ => bad "bad-op"
@@ -259,9 +344,10 @@ def stepCase (st : St) (v : Verdict) (i : Nat) (opText obs : String) : St × Ver
     match op.nat "e" with
     | .ok eid =>
       let t := w.nowMs
-      match w.exit eid with
+      let err := op.get? "err" == some "1"
+      match w.exit eid err with
       | some w' =>
-        let v := v.expect i opText "ok" obs
+        let v := v.expect i opText ("ok" ++ evStr (w'.log.drop w.log.length)) obs
         let sp' := match sp.open_.find? (fun e => e.1 == eid) with
           | some (_, res, batch, inbound, start) =>
             let nodeNames := if inbound then [res, "__inbound__"] else [res]
